@@ -38,7 +38,7 @@ func init() {
 				return 2_000_000
 			}, Run: c13Sections,
 				Rule: "generated metadata sections as described in the property's quantifier",
-				Min: map[string]int64{"accepted": 20000, "rejected": 20000, "viewbox_chunk": 10000, "palette_chunk": 10000, "degenerate_viewbox_accepted": 50,
+				Min: map[string]int64{"accepted": 20000, "rejected": 20000, "viewbox_chunk": 10000, "palette_chunk": 10000, "degenerate_viewbox_accepted": 50, "all_zero_viewbox": 200,
 					"rejected_viewbox_inverted": 100, "rejected_viewbox_nonfinite": 100, "rejected_length": 1000, "rejected_unknown_mid": 100, "rejected_count": 100, "huge_opposite_sign_viewbox": 1000, "nonfinite_bound_position_0": 500, "nonfinite_bound_position_3": 500}},
 		},
 	})
@@ -193,7 +193,7 @@ func c13Sections(c *run.Ctx, idx uint64) {
 		c.Count("viewbox_chunk", 1)
 		var ch gen.Asm
 		ch.Nat(0, gen.RandWidth(r))
-		mode := r.Intn(12)
+		mode := r.Intn(13)
 		coordNat := func(v int) { // v in 1/64 units, within [-8192, 8191]
 			if v%64 == 0 && v/64 >= -64 && v/64 < 64 && r.Bool() {
 				ch.Nat(uint32(v/64+64), 1)
@@ -261,6 +261,30 @@ func c13Sections(c *run.Ctx, idx uint64) {
 			ch.Nat(f4(-big[r.Intn(4)]), 4)
 			ch.Nat(f4(big[r.Intn(4)]), 4)
 			ch.Nat(f4(big[r.Intn(4)]), 4)
+		case mode == 12: // "special" boxes: all-zero (also with negative zeros), the default box stored explicitly, unit and point boxes around the origin
+			c.Count("special_viewbox", 1)
+			var v [4]float32
+			switch r.Intn(4) {
+			case 0: // (0,0,0,0)
+				c.Count("all_zero_viewbox", 1)
+			case 1:
+				v = [4]float32{-32, -32, 32, 32}
+			case 2:
+				p := float32(r.Pick(-1, 0, 1, 32, -32))
+				v = [4]float32{p, p, p, p}
+			default:
+				v = [4]float32{float32(r.Pick(-1, 0)), float32(r.Pick(-1, 0)), float32(r.Pick(0, 1)), float32(r.Pick(0, 1))}
+			}
+			for _, f := range v {
+				switch {
+				case f == 0 && r.Chance(1, 4):
+					ch.Nat(f4(float32(math.Copysign(0, -1))), 4)
+				case r.Chance(1, 3):
+					ch.Nat(f4(f), 4)
+				default:
+					coordNat(int(f) * 64)
+				}
+			}
 		default: // a non-finite bound of either sign in every position, the rest consistent with it
 			k := r.Intn(4)
 			nf := float32(r.PickF(math.Inf(1), math.Inf(-1), math.NaN(), -math.NaN()))
